@@ -970,7 +970,7 @@ pub fn gen_case(rng: &mut crate::common::Rng, w: &GenWeights, thorough: bool, ou
 /// available, request queued) position is set up with `setpos` and followed by one timer tick with the
 /// interval elapsed, one without, or one publish request.  `k` selects the position.
 pub fn single_step_count() -> usize {
-    3 * 3 * 2 * 2 * 2 * 2 * 2 * 3
+    3 * 3 * 2 * 2 * 2 * 4 * 2 * 3
 }
 
 pub fn gen_single_step(k: usize, out: &mut Vec<String>) {
@@ -985,7 +985,7 @@ pub fn gen_single_step(k: usize, out: &mut Vec<String>) {
     let ka = [1, 2][take(2)];
     let first = take(2);
     let enabled = take(2);
-    let data = take(2);
+    let data = take(4);
     let req = take(2);
     let last = take(3);
     out.push("reset 1 3".to_string());
@@ -997,8 +997,21 @@ pub fn gen_single_step(k: usize, out: &mut Vec<String>) {
     if enabled == 0 {
         out.push("pubmode 1 0".to_string());
     }
-    if data == 1 {
-        out.push("write 1 5".to_string());
+    match data {
+        1 => out.push("write 1 5".to_string()), // a change waiting to be sampled
+        2 => {
+            // exactly one notification queued in the subscription
+            out.push("write 1 5".to_string());
+            out.push("tick 1".to_string());
+        }
+        3 => {
+            // a backlog of three queued notifications (more_notifications inside the state machine)
+            for v in 5..8 {
+                out.push(format!("write 1 {}", v));
+                out.push("tick 1".to_string());
+            }
+        }
+        _ => {}
     }
     if req == 1 {
         out.push("publish 2 -".to_string());
@@ -1022,7 +1035,7 @@ pub fn gen_single_step(k: usize, out: &mut Vec<String>) {
 pub fn gen_scenario(rng: &mut crate::common::Rng, out: &mut Vec<String>) {
     let maxq = *rng.pick(&[2i64, 3, 5, 10]);
     out.push(format!("reset 2 {}", maxq));
-    match rng.below(6) {
+    match rng.below(7) {
         0 => {
             // triggering: item 1 reports and triggers 2 (Sampling), 3 (Reporting), 4 (Disabled), 5 (deleted)
             let iv = rng.range(1, 2);
@@ -1146,6 +1159,38 @@ pub fn gen_scenario(rng: &mut crate::common::Rng, out: &mut Vec<String>) {
             out.push("setmode 8 1 2".to_string());
             out.push("delitem 1 1".to_string());
             out.push("tick 4".to_string());
+        }
+        5 => {
+            // who is served first: several subscriptions (equal and different priorities) all with data,
+            // fewer requests than notifications
+            let prios: Vec<i64> = match rng.below(4) {
+                0 => vec![5, 5],
+                1 => vec![5, 5, 5],
+                2 => vec![5, 200, 5],
+                _ => vec![rng.range(0, 3), rng.range(0, 3), rng.range(0, 3)],
+            };
+            for (i, p) in prios.iter().enumerate() {
+                out.push(format!("sub {} 1 3 30 1", p));
+                out.push(format!("item {} {} 1 2 1 2 -", i + 1, i + 1));
+            }
+            out.push("tick 1".to_string());
+            out.push("tick 1".to_string());
+            let mut rq = 1;
+            for v in 1..=rng.range(2, 5) {
+                out.push(format!("write 1 {}", v));
+                out.push("tick 1".to_string());
+                if rng.chance(1, 2) {
+                    out.push(format!("publish {} -", rq));
+                    rq += 1;
+                }
+                if rng.chance(1, 4) {
+                    out.push(format!("modsub {} {} 1 3 30", rng.range(1, prios.len() as i64), rng.pick(&[5i64, 200, 0])));
+                }
+            }
+            for _ in 0..rng.range(1, 4) {
+                out.push(format!("publish {} -", rq));
+                rq += 1;
+            }
         }
         _ => {
             // Republish of acknowledged and of evicted sequence numbers; subscription deleted with data queued
